@@ -98,3 +98,19 @@ extern "C" void h_SetFileIdIncrement()
         __CPROVER_assert(f->IncrementFileId(in_id) == in_id + f->_fileIdIncr && f->IncrementFileId(in_id) > in_max, "C14 every id of the appended file is shifted by that one offset and so lies above every earlier id");
     }
 }
+
+/* C05 (termination): looking for the HEADER keyword ends for every input, whatever state the stream is in - empty file, file that
+ * could not be opened (failed stream that is not at end of file), input without HEADER.  The loop bound is an unwinding assertion. */
+extern "C" void h_FindHeaderSection()
+{
+    IN_ARR(char, in_txt, 6); IN(unsigned, in_len); IN(int, in_state);
+    __CPROVER_assume(in_len <= 6);
+    __CPROVER_assume(in_state == 0 || in_state == ios_base::failbit || in_state == ios_base::eofbit || in_state == (ios_base::failbit | ios_base::eofbit));
+    g_stream_arbitrary = 0; for (int i = 0; i < 6; i++) g_stream_script[i] = in_txt[i]; g_stream_len = in_len;
+    for (int i = 0; i < 6; i++) if ((unsigned)i < in_len) __CPROVER_assume(in_txt[i] != 0);
+    istream in; in._m_state = in_state; in._m_have = 0; in._m_consumed = 0;
+    STEPfile *f = mk_file(); f->_error._severity = SEVERITY_NULL;
+    int r = f->FindHeaderSection(in);
+    __CPROVER_assert(r == 0 || r == 1, "C05 the search for the header section terminates with an answer for every input and stream state");
+    if (in_len < 6) __CPROVER_assert(r == 0 && f->_error.severity() <= SEVERITY_INPUT_ERROR, "C05/C03 input too short to hold the HEADER keyword is refused with an input error, not looped over");
+}
